@@ -180,6 +180,10 @@ def deep_issubclass(subcls, cls):
     try:
         return _subclasscheck_registry[get_origin(cls)](cls, subcls)
     except KeyError:
+        # cls is a plain class: a subscripted typing generic (e.g. Tuple[A, B]) is
+        # compared through its origin, as issubclass() only accepts classes
+        if not isinstance(subcls, type):
+            subcls = get_origin(subcls)
         return issubclass(subcls, cls)
 
 
